@@ -38,8 +38,10 @@ Full-strength statement (does NOT hold of the code as it is, see `foreign_base_w
 What is proved: the statement outside the exclusion class `ForeignBase` — runs in which some guarded read goes to
 a location that is NOT the resolution of its reference against the location of the document the reference was found
 in (the loader used a `documentPath` that belongs to another document, and it mattered).  The class was narrowed
-twice: the raw re-read fallback no longer produces it (f972c33; regression `raw_fallback_regression`), and a
-foreign `documentPath` that yields the same location (absolute reference, same directory) is outside it. -/
+three times: the raw re-read fallback no longer produces it (f972c33; regression `raw_fallback_regression`), a
+foreign `documentPath` that yields the same location (absolute reference, same directory) is outside it, and a
+reference text in progress for another kind no longer leaves a child to the second walk (7245059; regression
+`other_kind_regression`). -/
 
 /-- exclusion predicate (decidable): some guarded read went to a location other than the resolution of its
     reference against its own document's location -/
@@ -237,10 +239,10 @@ theorem foreign_base_witness :
 theorem foreign_base_witness_not_spec : ¬ Spec x0 (load x0 16).1.log := by
   rw [← specB_iff]; simp [foreign_base_witness.2.2]
 
-/-- finding F-C11-1 (c): /r/a/root.json has header R → "b/d.json#/components/headers/H"; /r/a/b/d.json has header
-    H → "x.json"; /r/a/b/x.json is a header whose schema is "x.json" again.  While H is being resolved the text "x.json"
-    is in progress for a HEADER, so the schema's callback ignores the value (a04fe6c) and the schema stays unresolved;
-    the second walk of R's value, with the ROOT's location, then resolves "x.json" against /r/a/. -/
+/-- former witness of F-C11-1 (c) (corpus/C11/foreign_base_second_walk_otherkind.json): /r/a/root.json has header
+    R → "b/d.json#/components/headers/H"; /r/a/b/d.json has header H → "x.json"; /r/a/b/x.json is a header whose schema
+    is "x.json" again.  While the in-progress set was keyed by the text alone, the schema was skipped (text in progress
+    for a HEADER), its callback ignored the value, and the second walk of R's value resolved "x.json" against /r/a/. -/
 def x3 : Input :=
   { allowed := true, entry := .file, rootLoc := some (fileUrl ["r", "a", "root.json"]), rootInStore := true
     rootFile :=
@@ -256,12 +258,36 @@ def x3 : Input :=
             elems := elemView .header [ .mk 1 .schema (some (wholeRef "x.json" ["x.json"])) [] ] }),
         (fileUrl ["r", "a", "x.json"], leafFile) ] }
 
-/-- The model (which agrees with the real loader on this input, corpus/C11/foreign_base_second_walk_otherkind.json)
-reads /r/a/x.json, which no loaded document refers to. -/
-theorem foreign_second_walk_witness :
+/-- Regression for the repaired sub-case (c) (fixed by 7245059: the in-progress set is keyed by kind and text): the
+schema "x.json" is resolved on its own, against /r/a/b/ (the file is read a second time, as a schema); /r/a/x.json is
+not read, no foreign base, model = spec. -/
+theorem other_kind_regression :
     (load x3 16).1.log = [fileUrl ["r", "a", "root.json"], fileUrl ["r", "a", "b", "d.json"],
-                          fileUrl ["r", "a", "b", "x.json"], fileUrl ["r", "a", "x.json"]] ∧
-    ForeignBase x3 16 ∧ specB x3 (load x3 16).1.log = false := by
+                          fileUrl ["r", "a", "b", "x.json"], fileUrl ["r", "a", "b", "x.json"]] ∧
+    (load x3 16).2 = true ∧ ¬ ForeignBase x3 16 ∧ specB x3 (load x3 16).1.log = true := by
+  decide
+
+/-- finding F-C11-1 (d) (corpus/C11/foreign_base_empty_pathitem_second_walk.json): the root has callbacks
+    H → "b/cb.json" and R → "#/components/callbacks/H"; /r/a/b/cb.json has evt → "e.json"; /r/a/b/e.json is empty as a
+    path item, so evt never counts as resolved and the second walk of R's value resolves "e.json" against the root. -/
+def x6 : Input :=
+  { allowed := true, entry := .file, rootLoc := some (fileUrl ["r", "a", "root.json"]), rootInStore := true
+    rootFile :=
+      { parses := true, elems := [], raw := []
+        tops := [ .mk 1 .callback (some (wholeRef "b/cb.json" ["b", "cb.json"])) [],
+                  .mk 2 .callback (some (hashRef "/components/callbacks/H")) [] ]
+        typed := [("/components/callbacks/H", .mk 1 .callback (some (wholeRef "b/cb.json" ["b", "cb.json"])) [])] }
+    store :=
+      [ (fileUrl ["r", "a", "b", "cb.json"],
+          { parses := true, tops := [], typed := [], raw := []
+            elems := elemView .callback [ .mk 1 .pathItem (some (wholeRef "e.json" ["e.json"])) [] ] }),
+        (fileUrl ["r", "a", "b", "e.json"], { leafFile with emptyPI := true }),
+        (fileUrl ["r", "a", "e.json"], leafFile) ] }
+
+theorem foreign_empty_pathitem_witness :
+    (load x6 16).1.log = [fileUrl ["r", "a", "root.json"], fileUrl ["r", "a", "b", "cb.json"],
+                          fileUrl ["r", "a", "b", "e.json"], fileUrl ["r", "a", "e.json"]] ∧
+    ForeignBase x6 16 ∧ specB x6 (load x6 16).1.log = false := by
   decide
 
 /-- former witness of F-C11-1 (b) (corpus/C11/foreign_base_raw_fallback.json): the root's callback C has a path item
@@ -356,7 +382,7 @@ def x5 : Input :=
 
 /-- non-vacuity of the uniform theorems: a three-file universe in one directory is uniform (three reads); the
     witnesses of F-C11-1 are not uniform -/
-example : Uniform x5 ∧ (load x5 16).1.log.length = 3 ∧ ¬ Uniform x0 ∧ ¬ Uniform x3 := by decide
+example : Uniform x5 ∧ (load x5 16).1.log.length = 3 ∧ ¬ Uniform x0 ∧ ¬ Uniform x6 := by decide
 
 /-- path algebra: "../b/p.json" against /r/a/root.json -/
 example : resolvePath (some (fileUrl ["r", "a", "root.json"])) ⟨"", "", false, ["..", "b", "p.json"]⟩
@@ -483,10 +509,12 @@ theorem walk_sites_as_modelled :
 open KinModel.Gen in
 /-- Every sub-element is resolved with the resolver's current `documentPath` (`location` in `ResolveRefsIn`) — the
 model's `walk … cx` — and the only calls with another location are the recursive calls on the copy `&resolved`,
-which pass `componentPath` (for a path item the re-assigned `documentPath`) — the model's `⟨cdoc, cpath⟩`. -/
+which pass `componentPath` (for a path item the re-assigned `documentPath`) — the model's `⟨cdoc, cpath⟩` — and the
+call on the path item `&p` just loaded from a file that is itself a reference, with the file's location. -/
 theorem walk_location_args : ∀ r ∈ walkSites,
     (r.arg ≠ "&resolved" → r.locArg = (if r.fn = "ResolveRefsIn" then "location" else "documentPath")) ∧
     (r.arg = "&resolved" → r.callee = r.fn ∧
-      r.locArg = (if r.fn = "resolvePathItemRef" then "documentPath" else "componentPath")) := by decide
+      r.locArg = (if r.fn = "resolvePathItemRef" then "documentPath" else "componentPath")) ∧
+    (r.arg = "&p" → r.callee = r.fn ∧ r.fn = "resolvePathItemRef") := by decide
 
 end KinModel.Reads
